@@ -409,7 +409,7 @@ def JOBS(tier):
                     if quick and other == "stream" and script not in (0, 2):
                         continue
                     part = {"maxsize": maxsize, "block": block, "script": script, "other": other,
-                            "wmax": 14 if quick else 30, "xmax": 8 if quick else 14}
+                            "wmax": 11 if quick else 30, "xmax": 7 if quick else 14}
                     part["n"] = space_size(dims_of(part))
                     jobs.append({"func": "c02_sched", "timeout": t, "path_timeout": 60, "samples": 1, "part": part})
     return jobs
@@ -417,7 +417,7 @@ def JOBS(tier):
 
 EVIDENCE = {
     "bounds": {"quick": "2 threads (request W + either close() or a second request X) x maxsize {1,2} x block {T,F} x W script {plain, failing "
-                        "attempt then retry, streaming + release, 503 with exhausted budget} x every schedule (w1 <= 14, x1 <= 8, w2 <= 14) "
+                        "attempt then retry, streaming + release, 503 with exhausted budget} x every schedule (w1 <= 11, x1 <= 7, w2 <= 11) "
                         "of shared-state accesses: W runs w1 accesses, X runs x1, W runs w2, X finishes, W finishes (two preemptions of W, one of X)",
                "thorough": "w1, w2 <= 30, x1 <= 14 (covers every access of the longest script)"},
     "outside": ["three or more running threads; more than two preemptions of the worker", "pre-emption inside queue.LifoQueue's own methods (the "
